@@ -1,5 +1,5 @@
 (** Correspondence drivers of the mutation core (C01, C02, C03, C16, C18). *)
-Require Import AT.Model.Base AT.Model.Heap AT.Model.Mutate AT.Spec.MutSpec AT.Corr.Common.
+Require Import AT.Model.Base AT.Model.Heap AT.Model.Mutate AT.Spec.MutSpec AT.Proofs.MutReplay AT.Corr.Common.
 
 Definition hcell := (option id * list id)%type.
 Definition mk_heap (l : list hcell) : heap :=
@@ -147,7 +147,15 @@ Definition corr_C03 (cs : list case_mut) : greport :=
 
 (** C16: the observed log of a fault-free call is the specified one; a post
     hook fault of a parent assignment leaves the step done *)
+(** every link change is accounted for by the log: replaying the post hooks
+    from the initial state gives the observed final state (any call, any faults) *)
+Definition replay_ok (c : case_mut) : bool :=
+  match c_log c with
+  | None => true
+  | Some l => heap_eqb_pad (replay (initial_of (c_op c) (c_h0 c)) l) (c_h1 c)
+  end.
 Definition spec16 (c : case_mut) : bool :=
+  replay_ok c &&
   match c_log c with
   | None => false
   | Some l =>
